@@ -7,7 +7,7 @@
     statements Atlas plans for the difference brings the live database to a state whose difference
     from the desired schema is empty; a second plan computed right after is empty.
 
-    The full statement is FALSE of the faithful model and of the Go code: six witnesses inside the
+    The full statement is FALSE of the faithful model and of the Go code: eight witnesses inside the
     listed feature set are proved below as [C01_converges_refuted_*] (each reproduced on real SQLite,
     known_findings.d/C01.json).  What does hold is [C01_converges_except]: for every database of the
     abstract engine and every desired schema satisfying the decidable predicate [supported] --
@@ -22,10 +22,13 @@
     the inspected result with the desired schema is [].  The proof is by induction over the change
     list (Sqlite/Converge.v: phase1/phase2) with the invariant ConvergeStep.inv, per table by cases
     drop / no change / ALTER path / rebuild path; nothing is sampled.
+    [C01_converges_rows] lifts (a) to databases with rows: the same plan ends in sync or stops with a
+    row error, never with a schema error.  Condition (c) is not a convenience: both of its clauses are
+    refuted when dropped ([C01_converges_refuted_index_moves], [_new_table_clash]), and both witnesses
+    fail on real SQLite.
     MISSING for the full statement: (1) condition (b) is assumed per table, not derived from a purely
-    syntactic description of the feature set; (2) databases with rows (the engine model has them; the
-    theorem is for empty tables; rows are C05); (3) inline UNIQUE constraints in the current database
-    (refuted in general: C01_converges_refuted_drop_unique); (4) SQL text and SQLite itself: the engine
+    syntactic description of the feature set; (2) inline UNIQUE constraints in the current database
+    (refuted in general: C01_converges_refuted_drop_unique); (3) SQL text and SQLite itself: the engine
     is a model, tied to real go-sqlite3 by the correspondence stages. *)
 From Coq Require Import List NArith ZArith Bool Arith.
 From Atlas Require Import Base.Bytes Diff.Schema Diff.DiffModel Diff.DiffSqlite
@@ -239,3 +242,29 @@ Proof.
   exists w_unique_db, w_unique_B. split; [intros bx [<-|[]]; vm_compute; reflexivity|]. vm_compute. reflexivity.
 Qed.
 Print Assumptions C01_converges_refuted_drop_unique.
+
+(** an index name that moves to a table inspected earlier: CREATE INDEX i ON a before DROP INDEX i *)
+Definition n_z : str := [122]%N.
+Definition n_i : str := [105]%N.
+Definition ix (c : str) : index := mkIndex n_i false [cpart 1 c false] None None None.
+Definition w_moves_A : xschema := [tbl n_a [col n_c T_int 2 true] None [] [] []; tbl n_z [col n_c T_int 2 true] None [ix n_c] [] []].
+Definition w_moves_B : xschema := [tbl n_a [col n_c T_int 2 true] None [ix n_c] [] []; tbl n_z [col n_c T_int 2 true] None [] [] []].
+Theorem C01_converges_refuted_index_moves :
+  exists d B, (forall bx, In bx B -> desired_ok_b bx = true) /\ db_ok_b d = true /\ apply_plan nm d B = Some (Err EExists).
+Proof.
+  exists (run empty_db w_moves_A), w_moves_B. split; [intros bx [<-|[<-|[]]]; vm_compute; reflexivity|].
+  split; vm_compute; reflexivity.
+Qed.
+Print Assumptions C01_converges_refuted_index_moves.
+
+(** a table new_t next to a table t that must be rebuilt *)
+Definition n_new_t : str := [110;101;119;95;116]%N.
+Definition w_clash_A : xschema := [tbl n_t [col n_c T_int 2 true] None [] [] []; tbl n_new_t [col n_c T_int 2 true] None [] [] []].
+Definition w_clash_B : xschema := [tbl n_t [col n_c T_int 2 false] None [] [] []; tbl n_new_t [col n_c T_int 2 true] None [] [] []].
+Theorem C01_converges_refuted_new_table_clash :
+  exists d B, (forall bx, In bx B -> desired_ok_b bx = true) /\ db_ok_b d = true /\ apply_plan nm d B = Some (Err EExists).
+Proof.
+  exists (run empty_db w_clash_A), w_clash_B. split; [intros bx [<-|[<-|[]]]; vm_compute; reflexivity|].
+  split; vm_compute; reflexivity.
+Qed.
+Print Assumptions C01_converges_refuted_new_table_clash.
